@@ -6,8 +6,11 @@
 (*               create-and-insert a fully built transport if absent, store       *)
 (*               lastUsed := now; the caller holds the returned transport         *)
 (*   SendOk/SendFail(p)  no lock: the request on the held transport succeeds or    *)
-(*               fails; after the first failure RoundTrip goes round once more     *)
-(*               (Get again), after the second it returns the error               *)
+(*               fails.  RoundTrip walks its list of resolution results; when all   *)
+(*               failed it goes round once more.  Without well-known/SRV lookups    *)
+(*               the single result is APPENDED again on the second round (the list  *)
+(*               is not reset at retryResolution), so the second round makes up to  *)
+(*               two attempts: at most three Get+send per call (as the code is)     *)
 (*   Reaper      one critical section: delete every transport whose lastUsed is    *)
 (*               older than the lifetime                                          *)
 (*   Age(n)      environment: time passes beyond the lifetime of n's last use      *)
@@ -23,7 +26,7 @@ CONSTANTS Procs, Names, MaxCalls, MaxAge, MaxReap, Faults
 VARIABLES cache,    \* set of transports in the map
           nid,      \* transport identities handed out so far
           nage, nreap,
-          loc,      \* per process: pc, name, held (id of the transport in use, 0 = none), retried, status
+          loc,      \* per process: pc, name, held (id of the transport in use, 0 = none), retried, left, status
           ncalls,
           gets,     \* history: number of Get steps of the current call of each process
           reaped,   \* history: the transports deleted by the reaper, as they were when deleted
@@ -33,7 +36,7 @@ mech == <<cache, nid, nage, nreap, loc, ncalls>>
 vars == <<cache, nid, nage, nreap, loc, ncalls, gets, reaped, handed>>
 
 NoTr == [name |-> "", id |-> 0, aged |-> FALSE, init |-> FALSE, used |-> FALSE]
-IdleLoc == [pc |-> "idle", name |-> "", held |-> 0, retried |-> FALSE, status |-> ""]
+IdleLoc == [pc |-> "idle", name |-> "", held |-> 0, retried |-> FALSE, left |-> 1, status |-> ""]
 
 Init ==
   /\ cache = {}
@@ -80,9 +83,11 @@ SendOk(p) ==
 SendFail(p) ==
   /\ Faults
   /\ loc[p].pc = "send"
-  /\ IF ~loc[p].retried
-     THEN loc' = [loc EXCEPT ![p] = [@ EXCEPT !.pc = "get", !.retried = TRUE, !.held = 0]]
-     ELSE loc' = [loc EXCEPT ![p] = [@ EXCEPT !.pc = "idle", !.status = "err", !.held = 0]]
+  /\ IF loc[p].left > 1
+     THEN loc' = [loc EXCEPT ![p] = [@ EXCEPT !.pc = "get", !.left = @ - 1, !.held = 0]]
+     ELSE IF ~loc[p].retried
+          THEN loc' = [loc EXCEPT ![p] = [@ EXCEPT !.pc = "get", !.retried = TRUE, !.left = 2, !.held = 0]]
+          ELSE loc' = [loc EXCEPT ![p] = [@ EXCEPT !.pc = "idle", !.status = "err", !.held = 0]]
   /\ UNCHANGED <<cache, nid, nage, nreap, ncalls, gets, reaped, handed>>
 
 Reaper ==
@@ -122,7 +127,7 @@ NeverHalfInitialised ==
   /\ \A t \in cache : t.init /\ t.used
   /\ \A p \in Procs : handed[p] # NoTr => handed[p].init /\ handed[p].used /\ ~handed[p].aged
   /\ \A p \in Procs : loc[p].pc = "send" => loc[p].held = handed[p].id /\ handed[p].name = loc[p].name
-RetryAtMostOnce == \A p \in Procs : gets[p] <= 2
+BoundedRetries == \A p \in Procs : gets[p] <= 3
 OnlyAgedAreReaped == \A t \in reaped : t.aged
 EveryCallReturns == \A p \in Procs : (loc[p].pc # "idle") ~> (loc[p].pc = "idle")
 =============================================================================
